@@ -134,6 +134,12 @@ def c08_family(seed, thorough):
         [T('日本'), R('[一-龥]{2}', prio=12)],
         [T('日本'), R('[一-龥]{2}')],
         [T(b'\xC3\xA9'), R(b'[\xC0-\xDF][\x80-\xBF]', prio=4)],
+        # counted repetitions on their default priority: ties at the true value, no tie at a lowered one
+        [R('[0-9]{4}'), T('2024')],
+        [R('[0-9a-f]{2,}'), R('[a-z]+', prio=4)],
+        [R('[0-9]{2}'), R('[0-9]+')],
+        [R('(ab){3}', prio=12), R('[ab]{6}')],
+        [R('x{2,4}'), R('x+', prio=3)],
     ]
     for i, c in enumerate(cases):
         mk(i, c, ('amb', 'quick') if (i < 14 or i >= 24) else ('amb',), utf8=not any(isinstance(p.lit, bytes) for p in c))
